@@ -373,7 +373,7 @@ CORE9 = ('road', 'rural', 'roof', 'wall', 'SolRecRoof', 'SolRecRoad', 'SolRecWal
          'treeLat')
 
 
-def run_solar(sc, c):
+def run_solar(sc, c, reused=False):
     """Call the REAL solarcalcs with `solarangles` replaced by the case's sun position.
     Returns (answer_line, obs dict or None)."""
     def angles():
@@ -394,6 +394,8 @@ def run_solar(sc, c):
              wall=walls[0] if walls else None, SolRecRoof=U.SolRecRoof, SolRecRoad=U.SolRecRoad,
              SolRecWall=U.SolRecWall, treeSens=U.treeSensHeat, treeLat=U.treeLatHeat)
     o['sun'] = hasattr(sc, 'horSol')
+    if reused:      # (horSol, Kw_term, ... of an EARLIER sunlit call stay on the object: branch taken = the object's own dir + dif)
+        o['sun'] = o['sun'] and (sc.dir + sc.dif) > 0
     if o['sun']:
         o.update(horSol=sc.horSol, kw=sc.Kw_term, kr=sc.Kr_term, bldSol=sc.bldSol,
                  roadSol=sc.roadSol, mr=sc.mr, mw=sc.mw)
@@ -918,6 +920,155 @@ def kernel_circumstances(chk, pkg, violation):
                mismatches=nbad, branches=br)
 
 
+# ------------------------------------------------------------------------------- round 5: one SolarCalcs object, many calls
+# `SolarCalcs` is exported (`from uwg import SolarCalcs`); simulate() builds a new one every step, a caller stepping the
+# model himself need not. C13 speaks about every solarcalcs() call: what a surface receives is a function of the sun,
+# the geometry and the albedos AT THAT CALL - also for the second and third call on one object, and also when the
+# caller changed the archetype list in between.
+REUSE_EDITS = ('none', 'none', 'none', 'wall-replaced', 'roof-replaced', 'archetype-appended', 'archetype-removed',
+               'month-changed', 'road-albedo-changed')
+
+
+def _apply_edit(rng, sc, ck, edit):
+    """what a caller may do to the objects between two calls; returns the edit actually applied"""
+    if edit == 'wall-replaced':
+        sc.BEM[rng.randrange(len(sc.BEM))].wall = NS(solRec=None)
+    elif edit == 'roof-replaced':
+        sc.BEM[rng.randrange(len(sc.BEM))].roof = NS(solRec=None)
+    elif edit == 'archetype-appended':
+        sc.BEM.append(NS(roof=NS(solRec=None), wall=NS(solRec=None)))
+    elif edit == 'archetype-removed':
+        if len(sc.BEM) < 2:
+            return 'none'
+        sc.BEM.pop(rng.randrange(len(sc.BEM)))
+    elif edit == 'month-changed':
+        ck['month'] = rng.randint(1, 12)
+        sc.simTime.month = ck['month']
+    elif edit == 'road-albedo-changed':
+        ck['ralb'] = rq(rng, 0, 1, 20)
+        sc.UCM.road.albedo = ck['ralb']
+    return edit
+
+
+def reuse_ties(chk, pkg, violation):
+    import copy
+    import v3_util as V3
+    rng = chk.rng
+    quick = chk.tier == 'quick'
+    pairs, n, nbad, br = [], 0, 0, {}
+    for i in range(40 if quick else 400):
+        geom = gen_geom(rng, 'pyth') if rng.random() < 0.6 else None
+        c1 = gen_solar(rng, geom=geom, sun_kind=rng.choice(['consistent', 'overhead', 'random', 'consistent']))
+        c1['nbem'] = rng.choice([1, 2, 2, 3])
+        if c1['nbem'] < 2:
+            c1['alias'] = 'none'
+        sc, geo = build_solar(pkg, c1)
+        fill_sun(rng, c1, geo[0])
+        seq = [(c1, 'first call')]
+        for k in range(rng.choice([1, 2, 2])):
+            ck = dict(seq[-1][0], sun_kind=rng.choice(['nosun', 'nosun', 'consistent', 'random', 'overhead']))
+            fill_sun(rng, ck, geo[0])
+            seq.append((ck, rng.choice(REUSE_EDITS)))
+        history = []
+        for k, (ck, edit) in enumerate(seq):
+            if k:
+                ck['month'], ck['ralb'] = seq[k - 1][0]['month'], seq[k - 1][0]['ralb']   # as the earlier edits left them
+                edit = _apply_edit(rng, sc, ck, edit)
+            geo = (sc.UCM.canAspect, sc.UCM.roadConf, sc.UCM.wallConf, sc.UCM.treeCoverage, sc.UCM.road.vegcoverage,
+                   sc.UCM.vegcover)
+            twin = pkg.SolarCalcs(*copy.deepcopy((sc.UCM, sc.BEM, sc.simTime, sc.RSM, sc.forc, sc.parameter, sc.rural)))
+            err, o = run_solar(sc, ck, reused=True)
+            errf, of = run_solar(twin, ck)
+            history.append('%s: %s' % (edit if k else 'first call', ck['sun_kind']))
+            n += 1
+            key = 'call %d/%s/%s' % (k + 1, 'no sun' if ck['dir'] + ck['dif'] <= 0 else 'sun', edit if k else '-')
+            br[key] = br.get(key, 0) + 1
+            ans = err or (solar_answer(o) if o['roof'] is not None else 'ok nobem')
+            if ans != 'ok nobem':
+                pairs.append((solar_line(ck, geo), ans))
+            msgs = []
+            a, b = V3.solar_surfaces(sc), V3.solar_surfaces(twin)
+            w = V3.first_surface_difference(a, b)
+            if w or err != errf:
+                def fl(v):
+                    return [None if x is None else float(x) for x in v] if isinstance(v, tuple) else (None if v is None else float(v))
+                msgs.append('call %d on ONE SolarCalcs object gives %s = %s; a fresh SolarCalcs on the same inputs gives %s'
+                            % (k + 1, w or 'outcome', fl(a[w]) if w else err, fl(b[w]) if w else errf))
+            if o is not None:
+                m = oracle_solar(ck, geo, o)
+                if m:
+                    msgs.append(m)
+            elif err == 'bem-differ':
+                msgs.append('archetypes of one canyon receive different irradiance: walls %s, roofs %s' % (
+                    [None if x is None else float(x) for x in a['walls']], [None if x is None else float(x) for x in a['roofs']]))
+            if msgs:
+                nbad += 1
+                violation('solarcalcs() called more than once on ONE SolarCalcs object (call %d)' % (k + 1),
+                          dict(case_json({q: v for q, v in ck.items() if q != 'geom'}), geometry=case_json(ck.get('geom', {})),
+                               calls_so_far=history),
+                          ' | '.join(msgs[:3]),
+                          'every call hands every surface what a freshly constructed SolarCalcs hands it for the inputs as they '
+                          'are at that call: exactly 0 without sun, the prescribed irradiance with sun')
+                break
+    chk.correspond('SolarCalcs.solarcalcs(2nd / 3rd call on one object)~solarcalcs', 'C13', pairs,
+                   rule='fractionised solarcalcs called two or three times on ONE SolarCalcs object: sun -> no sun / another '
+                        'sun -> ..., the clock month changed in place, and between the calls the caller replaces a wall or a '
+                        'roof object, appends or removes an archetype, changes the road albedo (archetype lists of 1..3 '
+                        'entries, with shared wall / roof objects); every call vs the stateless Lean `solarcalcs` on the inputs '
+                        'of that call',
+                   classify=lambda line, impl: impl.split(' ')[1] if impl.startswith('ok') else impl)
+    chk.direct('reused-SolarCalcs-vs-fresh(exact)', n, n,
+               'every call of the sequences above against a FRESH SolarCalcs constructed on deep copies of the objects as they '
+               'are at that call (walls, roofs, road, rural site, canyon aggregates, vegetation heat: equal), and the T2/T4 '
+               'oracle on the re-used object\'s results (all-zero without sun, prescribed wall / road / roof irradiance)',
+               mismatches=nbad, branches=br)
+
+    # float level: the real objects of a generated model, the real solarangles, one object driven over a day
+    import simdriver
+    uwg = sys.modules.get('uwg') or __import__('uwg')
+    nf = fbad = 0
+    fbr = {}
+    for (mo, dy) in ([(7, 1)] if quick else [(7, 1), (1, 15), (4, 1), (10, 31)]):
+        with core.quiet():
+            m = simdriver.build_model(mo, dy, 1, 300)
+        sc = uwg.SolarCalcs(m.UCM, m.BEM, m.simTime, m.RSM, m.forc, m.geoParam, m.rural)
+        suns = [(43200, 700., 150.), (36000, 0., 90.), (0, 0., 0.), (50400, 400., 200.), (75600, 0., 0.), (64800, 20., 5.)]
+        rng.shuffle(suns)
+        if suns[0][1] + suns[0][2] <= 0:
+            suns.reverse()
+        for k, (sec, dr, df) in enumerate(suns[:4 if quick else 6]):
+            m.simTime.secDay = sec
+            m.forc.dir, m.forc.dif = dr, df
+            if k == 2:      # the caller swaps a wall for a new Element between two calls
+                w = m.BEM[0].wall
+                m.BEM[0].wall = uwg.Element(w.albedo, w.emissivity, list(w.layer_thickness_lst), list(w.material_lst),
+                                            w.vegcoverage, 293., w.horizontal, w.name)
+            twin = uwg.SolarCalcs(*copy.deepcopy((m.UCM, m.BEM, m.simTime, m.RSM, m.forc, m.geoParam, m.rural)))
+            sc.solarcalcs()
+            twin.solarcalcs()
+            nf += 1
+            fbr['sun' if dr + df > 0 else 'no sun'] = fbr.get('sun' if dr + df > 0 else 'no sun', 0) + 1
+            a, b = V3.solar_surfaces(sc), V3.solar_surfaces(twin)
+            w = V3.first_surface_difference(a, b)
+            msg = None
+            if w:
+                msg = 'call %d on one SolarCalcs object: %s = %r, a fresh object gives %r' % (k + 1, w, a[w], b[w])
+            elif dr + df <= 0 and any(x != 0 for x in a['walls'] + a['roofs'] + (a['road'], a['rural'])):
+                msg = 'the weather row reports no sun, walls receive %r, roofs %r' % (a['walls'], a['roofs'])
+            if msg:
+                fbad += 1
+                violation('solarcalcs() called more than once on ONE SolarCalcs object (float, real objects of a generated '
+                          'model)', {'level': 'float', 'month': mo, 'day': dy, 'call': k + 1,
+                                     'suns(secDay, direct, diffuse)': suns[:k + 1]}, msg,
+                          'as a fresh SolarCalcs on the same objects; zero without sun')
+                break
+    chk.direct('reused-SolarCalcs-vs-fresh(float, objects of a generated model, real solarangles)', nf, nf,
+               'SolarCalcs(model.UCM, model.BEM, model.simTime, ...) of a generated model driven over noon sun / overcast / '
+               'night / low sun by setting the clock and the forcing, a wall Element swapped by the caller between two calls: '
+               'each call bit-identical to a fresh SolarCalcs on deep copies of the objects, all-zero without sun',
+               mismatches=fbad, branches=fbr)
+
+
 def explain_excess(chk, excess, violation, label):
     """canyon totals with absorbed > entering seen in live runs: only the recorded closure deviation (Lean cR / cB > 1)
     may explain them"""
@@ -1281,6 +1432,7 @@ def run(chk):
     live_stock_runs(chk, violation)
     canyon_albedo_consistency(chk, violation)
     kernel_circumstances(chk, pkg, violation)
+    reuse_ties(chk, pkg, violation)
     dictionary_route(chk, violation)
     live_circumstances_13(chk, violation)
 
